@@ -18,7 +18,7 @@ SNIPPETS = [
     # expressions and calls
     ("local x = a + b * c\n", "lua51"), ("local x, y = f(a, b), g\n", "lua51"), ("x.y[z] = -a ^ b\n", "lua51"), ("f(a, b, c)\n", "lua51"),
     ("obj:method(a, {1, 2}):other()\n", "lua51"), ("local s = ('x'):rep(3) .. \"y\"\n", "lua51"), ("local x = (a or b) and not c\n", "lua51"),
-    ("local x = #t + -n\n", "lua51"), ("f{ a = 1 }\n", "lua51"), ("f'str'\n", "lua51"), ("local a = b.c.d.e(f)(g)\n", "lua51"),
+    ("local x = #t + -n\n", "lua51"), ("g(f(\"x\"), h{ 1 })\n", "lua51"), ("f{ a = 1 }\n", "lua51"), ("f'str'\n", "lua51"), ("local a = b.c.d.e(f)(g)\n", "lua51"),
     ("x = y == z and 1 or 2\n", "lua51"), ("return a, b + c, d\n", "lua51"), ("local v = t[k][1].f\n", "lua51"),
     ("local n, last = 0, queue.tail\n", "lua51"), ("a, b = 'x', f()\n", "lua51"), ("local t, u = {}, v[1]\n", "lua51"), ("local f, g = function() end, h\n", "lua51"),
     # statements
@@ -37,7 +37,7 @@ SNIPPETS = [
     # other syntaxes
     ("goto done\n::done::\n", "lua52"), ("local x <const> = 1\n", "lua54"), ("local x = a // b | c ~ d\n", "lua54"),
     ("local x: number = (y :: any) :: number\n", "luau"), ("type T = { a: number, b: (string) -> () } | nil\n", "luau"),
-    ("local s = if a then b else c\n", "luau"), ("x += f(`a{b}c`)\n", "luau"), ("local function f<T>(a: T, ...: number): (T, number) return a, 1 end\n", "luau"),
+    ("type A = { read number }\ntype F<T... = (string)> = (T...) -> ()\n", "luau"), ("local function g() x += 1 end\nif a then y -= 2 end\n", "luau"), ("local s = if a then b else c\n", "luau"), ("x += f(`a{b}c`)\n", "luau"), ("local function f<T>(a: T, ...: number): (T, number) return a, 1 end\n", "luau"),
 ]
 COMMENTS = [(" -- x\n", "line"), (" --[[x]] ", "block"), ("\n-- x\n", "own-line"), ("\n--[[x]]\n", "own-line-block")]
 CONFIGS = [dict(), dict(collapse_simple_statement="Always", call_parentheses="None"), dict(sort_requires="true", call_parentheses="Input", collapse_simple_statement="FunctionOnly")]
